@@ -14,7 +14,7 @@ sys.path.insert(0, os.path.dirname(os.path.dirname(os.path.abspath(__file__))))
 
 from common import VERIF, Ctx, InfraError  # noqa: E402
 
-LEAN_TARGETS = ["QuriVerif.Props.C08", "QuriVerif.Driver.C08"]
+LEAN_TARGETS = ["QuriVerif.Props.C08", "QuriVerif.Props.C08Lift", "QuriVerif.Driver.C08"]
 ENTRY = "DriverC08.lean"
 PROPS = "QuriVerif.Props.C08"
 
@@ -494,7 +494,8 @@ def greedy_groups(paulis):
     return groups
 
 
-ROUTES = ["direct", "direct", "direct", "default", "keyword", "estimator", "concurrent", "cc_estimator", "general", "general_seq", "general_param"]
+ROUTES = ["direct", "direct", "direct", "default", "default", "keyword", "estimator", "concurrent", "cc_estimator", "general", "general_seq",
+          "general_param", "manual"]
 
 
 def gen_case(rng, quick=True, wide=False):
@@ -550,6 +551,8 @@ def gen_case(rng, quick=True, wide=False):
         fac["mcform"] = rng.choice(["tuple", "tuple", "list", "circuit"])
     # what the factory returns: any iterable of measurements
     fac["ret"] = rng.choice(["list", "list", "tuple", "gen"])
+    # … of any implementation of the CommutablePauliSetMeasurement protocol (also around the library's own groupings)
+    fac["gform"] = rng.choice(GFORMS)
     ak = rng.choice(["equi", "prop", "prop", "wr", "fixed", "fixed"]) if fk == "list" else rng.choice(["equi", "prop", "prop", "wr"])
     al = {"kind": ak, "unit": rng.choice([1, 1, 1, 2, 5, 10, 0 if rng.random() < 0.1 else 1]), "seed": rng.randint(0, 10**6)}
     total = rng.choice([0, 1, 2, 3, 4, 5, 8, 10, 17, 50, 100, 1000, 10000])
@@ -684,6 +687,105 @@ def prod_demanded(state_gates, op_items, groups, shots):
     return val
 
 
+GFORMS = ["tuple", "tuple", "dataclass", "plain", "reordered", "extra", "lazy_mc", "lazy_all"]
+_GROUP_CLASSES: dict = {}
+
+
+def group_classes():
+    """Implementations of the `CommutablePauliSetMeasurement` PROTOCOL (three attributes: pauli_set, measurement_circuit,
+    pauli_reconstructor_factory — "explicit inheritance is not necessary") other than the library's NamedTuple.  The estimator's contract
+    with a measurement factory is that protocol, so "all measurement factories" includes factories returning any of these."""
+    if _GROUP_CLASSES:
+        return _GROUP_CLASSES
+    import dataclasses
+    from typing import Any, NamedTuple
+
+    from quri_parts.core.measurement import CommutablePauliSetMeasurementTuple
+
+    @dataclasses.dataclass(frozen=True)
+    class DataclassGroup:  # not iterable, not indexable
+        pauli_set: Any
+        measurement_circuit: Any
+        pauli_reconstructor_factory: Any
+
+    class PlainGroup:
+        def __init__(self, ps, mc, rf):
+            self.pauli_reconstructor_factory = rf
+            self.measurement_circuit = mc
+            self.pauli_set = ps
+
+    class ReorderedGroup(NamedTuple):  # a 3-tuple whose POSITIONS are not the library's
+        pauli_reconstructor_factory: Any
+        pauli_set: Any
+        measurement_circuit: Any
+
+    class ExtraGroup(NamedTuple):  # a tuple with an extra field in front
+        note: str
+        pauli_set: Any
+        measurement_circuit: Any
+        pauli_reconstructor_factory: Any
+
+    class LazyCircuitGroup(CommutablePauliSetMeasurementTuple):
+        """subclass of the library tuple: the stored circuit field is a placeholder, the attribute is computed on access"""
+        _circuits: dict = {}
+
+        @property
+        def measurement_circuit(self):
+            return LazyCircuitGroup._circuits[id(self)]()
+
+    class LazyGroup:
+        """every attribute computed on access"""
+
+        def __init__(self, ps, mc, rf):
+            self._src = (ps, mc, rf)
+            self.reads = 0
+
+        @property
+        def pauli_set(self):
+            self.reads += 1
+            return self._src[0]
+
+        @property
+        def measurement_circuit(self):
+            self.reads += 1
+            mc = self._src[1]
+            return mc if hasattr(mc, "gates") else type(mc)(mc)
+
+        @property
+        def pauli_reconstructor_factory(self):
+            self.reads += 1
+            return self._src[2]
+
+    def make(form, ps, mc, rf):
+        if form == "dataclass":
+            return DataclassGroup(ps, mc, rf)
+        if form == "plain":
+            return PlainGroup(ps, mc, rf)
+        if form == "reordered":
+            return ReorderedGroup(rf, ps, mc)
+        if form == "extra":
+            return ExtraGroup("extra", ps, mc, rf)
+        if form == "lazy_mc":
+            g = LazyCircuitGroup(ps, (), rf)
+            LazyCircuitGroup._circuits[id(g)] = lambda _mc=mc: _mc
+            _GROUP_CLASSES.setdefault("_keep", []).append(g)  # keep alive: ids stay unique
+            return g
+        if form == "lazy_all":
+            return LazyGroup(ps, mc, rf)
+        return CommutablePauliSetMeasurementTuple(ps, mc, rf)
+
+    _GROUP_CLASSES["make"] = make
+    return _GROUP_CLASSES
+
+
+def as_group_form(form, ms):
+    """re-express measurement groups (any protocol implementation) in the given implementation of the protocol"""
+    if not form or form == "tuple":
+        return ms
+    make = group_classes()["make"]
+    return [make(form, m.pauli_set, m.measurement_circuit, m.pauli_reconstructor_factory) for m in ms]
+
+
 class Rec:
     def __init__(self):
         self.measurements = None
@@ -812,6 +914,7 @@ def build_and_run(spec, route="direct"):
                         qc.add_gate(gg)
                     mc = qc
                 ms.append(CommutablePauliSetMeasurementTuple(ps, mc, rf))
+        ms = as_group_form(spec["factory"].get("gform"), ms)
         rec.measurements = ms
         ret = spec["factory"].get("ret", "list")
         return tuple(ms) if ret == "tuple" else (m for m in ms) if ret == "gen" else ms
@@ -883,7 +986,19 @@ def build_and_run(spec, route="direct"):
         import quri_parts.core.estimator.sampling as ES
 
         T = spec["total"]
-        if route == "direct":
+        if route == "manual" and (op_arg is not op or len(op) == 0 or (len(op) == 1 and PAULI_IDENTITY in op)):
+            route = "default"
+        if route == "manual":
+            # the same pipeline assembled by the caller from the public helpers (each of them consumes measurement groups)
+            from quri_parts.core.estimator.sampling import estimator_helpers as EH
+            from quri_parts.core.estimator.utils import is_estimatable
+
+            assert is_estimatable(op, state)
+            ms_ = [m for m in factory(op) if m.pauli_set != {PAULI_IDENTITY}]
+            sm_ = EH.distribute_shots_among_pauli_sets(op, ms_, allocator, T)
+            ms_ = [m for m in ms_ if sm_[m.pauli_set] > 0]
+            est = ES.get_estimate_from_sampling_result(op, ms_, op.constant, sampler(EH.get_sampling_circuits_and_shots(state, ms_, sm_)))
+        elif route == "direct":
             est = sampling_estimate(op_arg, state, T, sampler, factory, allocator, prep)
         elif route == "default":
             est = sampling_estimate(op_arg, state, T, sampler, factory, allocator)
@@ -942,6 +1057,7 @@ def analyse(ctx: Ctx, spec, mode, reqs1, pend):
     ctx.count("route", spec.get("route") or "direct")
     ctx.count("forms", "state=" + spec.get("sform", "general"))
     ctx.count("forms", "factory_ret=" + spec["factory"].get("ret", "list"))
+    ctx.count("forms", "group_object=" + (spec["factory"].get("gform") or "tuple"))
     ctx.count("forms", "sampler_ret=" + spec.get("sret", "list"))
     if spec["factory"]["kind"] == "list":
         ctx.count("forms", "meas_circuit=" + spec["factory"].get("mcform", "tuple"))
@@ -1067,6 +1183,7 @@ def analyse(ctx: Ctx, spec, mode, reqs1, pend):
         if rec.oracle_limit:
             ctx.count("oracle_limit")
         elif st == "err":
+            info["raise_witnessed"] = True
             ctx.witness("sampling_estimate.raises", f"ideal sampling, real code raises {val}", spec, {"demanded": str(want)})
         elif not abs(val - want) <= 1e-9 * scale:
             info["oracle_mismatch"] = True
@@ -1223,6 +1340,11 @@ def finish_cases(ctx: Ctx, mode, reqs1, pend):
             mv = complex(float(Fraction(parts[0])), float(Fraction(parts[1])))
             if st != "ok" or abs(mv - val) > 1e-9 * scale:
                 ctx.disagree("value", spec, str((st, val)), str(mv))
+                if st == "err" and spec["sampler"] == "ideal" and not info.get("raise_witnessed"):
+                    # the allocation succeeded and exact, non-empty frequencies were (or would have been) delivered: the model returns
+                    # a value, the real code raises before / while sampling
+                    ctx.witness("sampling_estimate.raises", f"ideal sampling, real code raises {val} where the estimate is defined", spec,
+                                {"model_value": str(mv), "group_object": spec["factory"].get("gform")})
             else:
                 agree = True
         if info.get("oracle_mismatch"):
@@ -1546,10 +1668,10 @@ def k_pauli_sum(ctx: Ctx, n_cases: int):
 class Session:
     """shared sampler, measurement factory and allocator objects that log every call"""
 
-    def __init__(self, fkind, akind, unit, flip=None):
+    def __init__(self, fkind, akind, unit, flip=None, gform=None):
         from quri_parts.core.sampling import shots_allocator as SA
 
-        self.fkind, self.flip = fkind, flip
+        self.fkind, self.flip, self.gform = fkind, flip, gform
         self.inner = {"equi": SA.create_equipartition_shots_allocator, "prop": SA.create_proportional_shots_allocator}[akind](unit)
         self.alog, self.slog, self.flog = [], [], 0
 
@@ -1565,7 +1687,7 @@ class Session:
         self.flog += 1
         ms = list((bitwise_commuting_pauli_measurement if self.fkind == "bitwise" else individual_pauli_measurement)(o))
         if self.flip is None:
-            return ms
+            return as_group_form(self.gform, ms)
         fm = 1 << self.flip
 
         def rf(pauli):
@@ -1573,7 +1695,8 @@ class Session:
             return lambda bits: r0(bits ^ fm)
 
         # another valid measurement of the same groups: outcome bit `flip` inverted by an X, undone by the reconstructors
-        return [CommutablePauliSetMeasurementTuple(m.pauli_set, tuple(m.measurement_circuit) + (QC.X(self.flip),), rf) for m in ms]
+        return as_group_form(self.gform, [CommutablePauliSetMeasurementTuple(m.pauli_set, tuple(m.measurement_circuit) + (QC.X(self.flip),), rf)
+                                          for m in ms])
 
     def allocator(self, o, pauli_sets, total):
         out = self.inner(o, pauli_sets, total)
@@ -1668,14 +1791,14 @@ def gen_concurrent_case(rng):
             "entry": rng.choice(["function", "function", "function_kw", "created", "general"]),
             "container": rng.choice(["list", "list", "tuple"]),
             "fkind": rng.choice(["bitwise", "individual"]), "akind": rng.choice(["equi", "prop"]), "unit": rng.choice([1, 1, 2, 5]),
-            "flip": rng.randrange(n) if rng.random() < 0.3 else None, "total": rng.choice([1000, 4096, 10000])}
+            "flip": rng.randrange(n) if rng.random() < 0.3 else None, "total": rng.choice([1000, 4096, 10000]), "gform": rng.choice(GFORMS)}
 
 
 def run_concurrent_case(ctx: Ctx, spec):
     import quri_parts.core.estimator.sampling as ES
 
     n = spec["n"]
-    ses = Session(spec["fkind"], spec["akind"], spec["unit"], spec.get("flip"))
+    ses = Session(spec["fkind"], spec["akind"], spec["unit"], spec.get("flip"), spec.get("gform"))
     ops = [_mk_op(t) for t in spec["ops"]]
     sts = [_mk_state(n, s["gates"], s["form"], s["bits"]) for s in spec["states"]]
     cont = list if spec["container"] == "list" else tuple
@@ -1705,6 +1828,7 @@ def run_concurrent_case(ctx: Ctx, spec):
     ctx.traces += 1
     ctx.case(("concurrent", canon_spec(spec)), nontrivial=real[0] == "ok")
     ctx.count("concurrent", f"{spec['shape']}/{entry}:{real[0] if real[0] == 'ok' else real[1]}")
+    ctx.count("concurrent_group_object", spec.get("gform") or "tuple")
     n_ops, n_st = len(ops), len(sts)
     if n_ops == 0 or n_st == 0 or (n_ops > 1 and n_st > 1 and n_ops != n_st):
         # documented: "No operator specified." / "No state specified." / "Number of operators does not match number of states" → ValueError.
@@ -1763,7 +1887,8 @@ def gen_history_case(rng):
             st["bare"] = True
         steps.append(st)
     return {"kernel": "history", "steps": steps, "lazy": lazy, "fkind": rng.choice(["bitwise", "individual"]), "akind": rng.choice(["equi", "prop"]),
-            "unit": rng.choice([1, 1, 2]), "total": rng.choice([1000, 4096]), "order_seed": rng.randint(0, 10**6)}
+            "unit": rng.choice([1, 1, 2]), "total": rng.choice([1000, 4096]), "order_seed": rng.randint(0, 10**6),
+            "gformA": rng.choice(GFORMS), "gformB": rng.choice(GFORMS)}
 
 
 def run_history_case(ctx: Ctx, spec):
@@ -1772,8 +1897,8 @@ def run_history_case(ctx: Ctx, spec):
     import quri_parts.core.estimator.sampling as ES
 
     T = spec["total"]
-    sesA = Session(spec["fkind"], spec["akind"], spec["unit"], None)
-    sesB = Session(spec["fkind"], spec["akind"], spec["unit"], 0)  # flips outcome bit 0 and undoes it in its reconstructors
+    sesA = Session(spec["fkind"], spec["akind"], spec["unit"], None, spec.get("gformA"))
+    sesB = Session(spec["fkind"], spec["akind"], spec["unit"], 0, spec.get("gformB"))  # flips outcome bit 0 and undoes it in its reconstructors
     made = {}
 
     def estimator(ses, via):
@@ -1861,6 +1986,35 @@ def k_rejects(ctx: Ctx):
                 ctx.disagree("reject:wide-operator", spec, str((st, val)), "AssertionError before sampling")
 
 
+KEY_ONESHOT = "get_estimate_from_sampling_result.one-shot-iterable-groups"
+
+
+def k_oneshot_groups(ctx: Ctx):
+    """`get_estimate_from_sampling_result(op, measurement_groups: Iterable[...], const, sampling_counts: Iterable[...])`: the counts are
+    materialised, the groups are iterated TWICE — a one-shot iterable of groups (a generator, as a measurement factory may return) leaves no
+    reconstructors, the zip is empty and the estimate silently is the constant alone.  Pinned input, replayed on the real code every run."""
+    from quri_parts.core.estimator.sampling import get_estimate_from_sampling_result
+    from quri_parts.core.measurement import bitwise_commuting_pauli_measurement
+    from quri_parts.core.operator import PAULI_IDENTITY, Operator, pauli_label
+
+    op = Operator({pauli_label("Z0"): 2.0, PAULI_IDENTITY: 0.5})
+    inp = {"op": "2.0*Z0 + 0.5*I", "state": "|0>", "groups": "generator over bitwise_commuting_pauli_measurement(op) without the identity group",
+           "counts": "[{0: 10}] (exact frequencies of 10 shots)", "const": 0.5}
+    for form in ("list", "generator"):
+        ms = [m for m in bitwise_commuting_pauli_measurement(op) if m.pauli_set != {PAULI_IDENTITY}]
+        try:
+            v = complex(get_estimate_from_sampling_result(op, ms if form == "list" else (m for m in ms), 0.5, [{0: 10}]).value)
+            real = ("ok", v)
+        except Exception as e:  # noqa: BLE001
+            real = ("err", exc_name(e))
+        ctx.traces += 1
+        ctx.case(("oneshot-groups", form), nontrivial=True)
+        if real != ("ok", 2.5 + 0j):
+            ctx.witness(KEY_ONESHOT if form == "generator" else "sampling_estimate.value",
+                        f"exact counts handed to get_estimate_from_sampling_result with the groups as a {form}: demanded 2.5", dict(inp, groups_form=form),
+                        {"real": str(real), "demanded": "2.5"})
+
+
 def run(ctx: Ctx, replay=None) -> int:
     ctx.rule = ("cases = (allocator kind × variant, weight vector, total, unit, seed) called directly | (state circuit, operator, measurement "
                 "factory, allocator, total, sampler) through the real sampling_estimate with a recording sampler | (Pauli, count dict) through "
@@ -1874,10 +2028,12 @@ def run(ctx: Ctx, replay=None) -> int:
                 "from the state vector by oracle/c08ideal.py; distinct = distinct canonical inputs; nontrivial = something was allocated / requested")
     ctx.trusted = TRUSTED
     ctx.assumptions = ASSUMPTIONS
-    ok = ctx.prove([PROPS, "QuriVerif.Driver.C08"], [PROPS])
+    LIFT = "QuriVerif.Props.C08Lift"
+    ok = ctx.prove([PROPS, LIFT, "QuriVerif.Driver.C08"], [PROPS, LIFT])
     if ok:
         names = [f"QV.Props.C08.{n}" for _, n, _ in ctx.count_obligations([PROPS])]
-        ctx.audit(names, [PROPS])
+        names += [f"QV.Props.C08Lift.{n}" for _, n, _ in ctx.count_obligations([LIFT])]
+        ctx.audit(names, [PROPS, LIFT])
     else:
         ok_driver, _ = ctx.lake_build(["QuriVerif.Driver.C08"])
         if not ok_driver:
@@ -1918,6 +2074,7 @@ def run(ctx: Ctx, replay=None) -> int:
         k_concurrent(ctx, ctx.n(300, 3000))
         k_history(ctx, ctx.n(250, 2000))
         k_rejects(ctx)
+        k_oneshot_groups(ctx)
     broken = bool(ctx.failed_obligations or ctx.disagreements)
     if broken:
         with ctx.timed("oracle_search"):
